@@ -14,6 +14,10 @@ class SomeClass:
         pass
 
 
+class LazyModule(types.ModuleType):
+    """A module object whose type is a subclass of the module type (lazy importers, apipkg and the like)."""
+
+
 def some_function() -> None:
     pass
 
@@ -35,6 +39,8 @@ def make_value(kind: str, size: int):  # type: ignore
         return SomeClass().method
     if kind == "mod":
         return types
+    if kind == "modsub":
+        return LazyModule("lazily_imported_settings")   # an instance of a subclass of types.ModuleType
     if kind == "builtin":
         return len
     raise ValueError(kind)
